@@ -9,8 +9,8 @@ SPEC = dict(
     property="C27",
     component="reload",
     props_module="Refinery.Props.C27",
-    quick=dict(cases=240, len=14, shards=8),
-    thorough=dict(cases=4800, len=24, shards=16),
+    quick=dict(cases=160, len=12, shards=8),
+    thorough=dict(cases=2400, len=24, shards=16),
     nontrivial=nontrivial,
     rule="cases = random histories on a real fileConfig over temp files (config + rules): file rewrites drawn from "
          "{valid changed value, valid changed bytes only, identical bytes, deprecated setting (warning), validation error, "
